@@ -752,6 +752,11 @@ fn norm_supers(l: &str) -> String {
 ///   duplicate-module-path : files registered under one module path in LuaModuleIndex
 /// everything else is named after the section of the dump that differs.
 fn tags_of(only_before: &[String], only_after: &[String], sh: &Shared, dup_modules: bool) -> BTreeSet<String> {
+    line_tags(only_before, only_after, sh, dup_modules).into_iter().map(|x| x.1).collect()
+}
+
+/// (line, tag) for every differing line
+fn line_tags(only_before: &[String], only_after: &[String], sh: &Shared, dup_modules: bool) -> Vec<(String, String)> {
     let all: Vec<&String> = only_before.iter().chain(only_after.iter()).collect();
     let mut active_globals: BTreeSet<String> = BTreeSet::new();
     for l in &all {
@@ -762,7 +767,13 @@ fn tags_of(only_before: &[String], only_after: &[String], sh: &Shared, dup_modul
     }
     let nb: BTreeSet<String> = only_before.iter().filter(|l| l.starts_with("type|")).map(|l| norm_supers(l)).collect();
     let na: BTreeSet<String> = only_after.iter().filter(|l| l.starts_with("type|")).map(|l| norm_supers(l)).collect();
-    let mut tags = BTreeSet::new();
+    // a member line without its location: `member|T|key|<loc>|type=..|doc=..`
+    let norm_member = |l: &str| -> String {
+        let f: Vec<&str> = l.splitn(5, '|').collect();
+        if f.len() == 5 { format!("{}|{}|{}|{}", f[0], f[1], f[2], f[4]) } else { l.to_string() }
+    };
+    let count = |ls: &[String], n: &str| ls.iter().filter(|l| l.starts_with("member|") && norm_member(l) == n).count();
+    let mut tags: Vec<(String, String)> = Vec::new();
     for l in &all {
         let f: Vec<&str> = l.splitn(5, '|').collect();
         let name1 = f.get(1).copied().unwrap_or("");
@@ -796,7 +807,13 @@ fn tags_of(only_before: &[String], only_after: &[String], sh: &Shared, dup_modul
                 }
             }
             "tokty" => "inferred-type",
-            "member" | "stale-member" => "member-set",
+            "member" => {
+                // the same member (owner, key, type, doc) on both sides, the same number of times: only WHICH file's
+                // declaration is listed changed
+                let n = norm_member(l);
+                if count(only_before, &n) == count(only_after, &n) { "member-decl-order" } else { "member-set" }
+            }
+            "stale-member" => "member-set",
             "type" => {
                 let n = norm_supers(l);
                 if nb.contains(&n) && na.contains(&n) { "supers-order" } else { "type-decl" }
@@ -811,7 +828,7 @@ fn tags_of(only_before: &[String], only_after: &[String], sh: &Shared, dup_modul
             "op" => "operators",
             other => other,
         };
-        tags.insert(tag.to_string());
+        tags.push(((*l).clone(), tag.to_string()));
     }
     tags
 }
@@ -882,14 +899,54 @@ fn shared_entities(files: &[WFile]) -> Shared {
 
 /// returns whether anything was judged. `remap_lib`: run the same case with the library files moved into the main
 /// workspace (used to classify a violation as caused by the library-before-main analysis order)
-fn run_case(case: &Value, out: &mut Vec<Value>, stats: &mut BTreeMap<String, usize>, remap_lib: bool) -> bool {
+/// every `---@class X: ...` line gets the same (sorted, de-duplicated) parent list for X: neutralises the order of super clauses
+fn canon_supers(texts: &mut [WFile]) {
+    let mut parents: BTreeMap<String, BTreeSet<String>> = BTreeMap::new();
+    let parse = |line: &str| -> Option<(String, Vec<String>)> {
+        let rest = line.strip_prefix("---@class ")?;
+        let (name, ps) = rest.split_once(':')?;
+        Some((name.trim().to_string(), ps.split(',').map(|x| x.trim().to_string()).filter(|x| !x.is_empty()).collect()))
+    };
+    for f in texts.iter() {
+        for txt in [&f.text, &f.alt] {
+            for line in txt.lines() {
+                if let Some((n, ps)) = parse(line) {
+                    parents.entry(n).or_default().extend(ps);
+                }
+            }
+        }
+    }
+    let fix = |txt: &str| -> String {
+        txt.lines()
+            .map(|line| match parse(line) {
+                Some((n, _)) => format!("---@class {n}: {}", parents.get(&n).map(|p| p.iter().cloned().collect::<Vec<_>>().join(", ")).unwrap_or_default()),
+                None => line.to_string(),
+            })
+            .collect::<Vec<_>>()
+            .join("\n")
+            + "\n"
+    };
+    for f in texts.iter_mut() {
+        f.text = fix(&f.text);
+        f.alt = fix(&f.alt);
+    }
+}
+
+/// `mode`: 0 = the case as given; bit 1 = library files moved into the main workspace; bit 2 = super clauses made
+/// identical in every declaration of a class.  The variants are used to attribute a difference to a recorded mechanism.
+fn run_case(case: &Value, out: &mut Vec<Value>, stats: &mut BTreeMap<String, usize>, mode: u8) -> bool {
+    let remap_lib = mode & 1 != 0;
     let with_lib = case["lib"].as_bool().unwrap_or(false) && !remap_lib;
     let single = case["single"].as_bool().unwrap_or(false);
     let mut cfg = case["cfg"].as_u64().unwrap_or(0) as usize;
-    let files: Vec<WFile> = case["files"]
+    let mut files: Vec<WFile> = case["files"]
         .as_array()
         .map(|a| a.iter().map(|f| WFile { path: remap(f["path"].as_str().unwrap_or(""), remap_lib), text: f["text"].as_str().unwrap_or("").into(), alt: f["alt"].as_str().unwrap_or("").into() }).collect())
         .unwrap_or_default();
+    if mode & 2 != 0 {
+        canon_supers(&mut files);
+    }
+    let files = files;
     let steps: Vec<Value> = case["steps"].as_array().cloned().unwrap_or_default();
     let n = files.len();
     let mut cur: Vec<Option<String>> = files.iter().map(|f| Some(f.text.clone())).collect();
@@ -934,22 +991,38 @@ fn run_case(case: &Value, out: &mut Vec<Value>, stats: &mut BTreeMap<String, usi
     // this step when the library files live in the main workspace are attributed to that recorded mechanism
     let classify = |prefix: &str, si: usize, b: &[String], af: &[String], dup: bool| -> BTreeSet<String> {
         let mut tags = tags_of(b, af, &sh, dup);
-        if with_lib && !remap_lib && tags.iter().any(|t| !is_mechanism(t)) {
+        if mode != 0 {
+            return tags;
+        }
+        // causal attribution: re-run the case with one recorded mechanism neutralised; the section tags that vanish
+        // at this step belong to that mechanism
+        let mut variants: Vec<(u8, &str)> = Vec::new();
+        if with_lib {
+            variants.push((1, "library-before-main-order"));
+        }
+        if tags.contains("supers-order") {
+            variants.push((2, "supers-order"));
+        }
+        for (m, name) in variants {
+            let raw: Vec<String> = tags.iter().filter(|t| !is_mechanism(t)).cloned().collect();
+            if raw.is_empty() {
+                break;
+            }
             let mut o2 = Vec::new();
             let mut st2 = BTreeMap::new();
-            run_case(case, &mut o2, &mut st2, true);
+            run_case(case, &mut o2, &mut st2, m);
             let still: BTreeSet<String> = o2
                 .iter()
                 .filter(|v| v["detail"]["step"] == json!(si) && v["signature"].as_str().map(|s| s.starts_with(prefix)).unwrap_or(false))
                 .flat_map(|v| v["detail"]["tags"].as_array().cloned().unwrap_or_default())
                 .filter_map(|t| t.as_str().map(|x| x.to_string()))
                 .collect();
-            let raw: Vec<String> = tags.iter().filter(|t| !is_mechanism(t)).cloned().collect();
-            if raw.iter().all(|t| !still.contains(t)) {
-                for t in raw {
+            let gone: Vec<String> = raw.into_iter().filter(|t| !still.contains(t)).collect();
+            if !gone.is_empty() {
+                for t in gone {
                     tags.remove(&t);
                 }
-                tags.insert("library-before-main-order".to_string());
+                tags.insert(name.to_string());
             }
         }
         tags
@@ -958,7 +1031,7 @@ fn run_case(case: &Value, out: &mut Vec<Value>, stats: &mut BTreeMap<String, usi
     for (si, step) in steps.iter().enumerate() {
         let kind = step[0].as_str().unwrap_or("").to_string();
         let i = step[1].as_u64().unwrap_or(0) as usize;
-        if !remap_lib {
+        if mode == 0 {
             *stats.entry(format!("step:{kind}")).or_default() += 1;
         }
         match kind.as_str() {
@@ -996,7 +1069,9 @@ fn run_case(case: &Value, out: &mut Vec<Value>, stats: &mut BTreeMap<String, usi
                         let all_tags: Vec<String> = tags.iter().cloned().collect();
                         let raw: Vec<String> = tags.iter().filter(|t| !is_mechanism(t)).cloned().collect();
                         let what = format!("step {si} ({kind} {}): observable results changed after re-submitting unchanged content: {} line(s) lost, {} new; first lost: {:?}; first new: {:?}", step[1], b.len(), af.len(), b.first(), af.first());
-                        let detail = json!({"step": si, "tags": all_tags, "lost": b.iter().take(8).collect::<Vec<_>>(), "new": af.iter().take(8).collect::<Vec<_>>()});
+                        let lt = line_tags(&b, &af, &sh, has_dup_modules(&baseline_dump) || has_dup_modules(&d));
+                        let unexplained: Vec<&String> = lt.iter().filter(|x| !is_mechanism(&x.1)).map(|x| &x.0).take(12).collect();
+                        let detail = json!({"step": si, "tags": all_tags, "unexplained": unexplained, "lost": b.iter().take(8).collect::<Vec<_>>(), "new": af.iter().take(8).collect::<Vec<_>>()});
                         if !raw.is_empty() {
                             report("C08", format!("C08:resubmit-changes:{}", raw.join("+")), what.clone(), detail.clone());
                         }
@@ -1011,11 +1086,11 @@ fn run_case(case: &Value, out: &mut Vec<Value>, stats: &mut BTreeMap<String, usi
                         let b0 = *baseline_sizes.get(k).unwrap_or(&0);
                         if !size_exempt(k) && *v > b0 {
                             let mut sig = format!("C08:growth:{k}");
-                            if with_lib && !remap_lib {
+                            if with_lib && mode == 0 {
                                 let o2 = remapped.get_or_insert_with(|| {
                                     let mut o2 = Vec::new();
                                     let mut st2 = BTreeMap::new();
-                                    run_case(case, &mut o2, &mut st2, true);
+                                    run_case(case, &mut o2, &mut st2, 1);
                                     o2
                                 });
                                 if !o2.iter().any(|x| x["detail"]["step"] == json!(si) && x["signature"] == json!(sig)) {
@@ -1289,7 +1364,7 @@ fn main() {
                 let r = guarded(|| {
                     let mut o = Vec::new();
                     let mut st = BTreeMap::new();
-                    let judged = run_case(&case, &mut o, &mut st, false);
+                    let judged = run_case(&case, &mut o, &mut st, 0);
                     (o, st, judged)
                 });
                 match r {
@@ -1321,7 +1396,7 @@ fn main() {
             let case: Value = serde_json::from_str(&args.str("case-json", "{}")).unwrap_or(Value::Null);
             let mut out = Vec::new();
             let mut st = BTreeMap::new();
-            let _ = guarded(|| run_case(&case, &mut out, &mut st, false));
+            let _ = guarded(|| run_case(&case, &mut out, &mut st, 0));
             for v in &out {
                 println!("{}", v);
             }
